@@ -13,7 +13,7 @@ import (
 	"google.golang.org/grpc/stats"
 )
 
-const zzNumRespShapes = 12
+const zzNumRespShapes = 13
 
 // zzResponse builds a response-side envelope; bodies carry value v.
 func zzResponse(shape int, id uint64, v byte) *Rpc {
@@ -46,6 +46,8 @@ func zzResponse(shape int, id uint64, v byte) *Rpc {
 		return &Rpc{Id: id, Header: zzRespHdr(), Reset_: &goatorepo.Reset{Type: "RST_STREAM"}, Trailer: &goatorepo.Trailer{}}
 	case 10: // nothing but an id
 		return &Rpc{Id: id}
+	case 12: // a foreign peer's reset: some other type string, with an (empty) trailer like goat's own
+		return &Rpc{Id: id, Header: zzRespHdr(), Reset_: &goatorepo.Reset{Type: "CANCEL"}, Trailer: &goatorepo.Trailer{}}
 	default: // trailer without status and without body
 		return &Rpc{Id: id, Header: zzRespHdr(), Trailer: &goatorepo.Trailer{}}
 	}
